@@ -61,6 +61,12 @@ def pair_filters(repo, chk, rule):
     # keep only the skip-processed pair: the filters whose predicate is a membership test
     cand = {k: [s for s in v if any(isinstance(x, ast.Compare) and isinstance(x.ops[0], (ast.NotIn, ast.In)) for x in ast.walk(s.value.generators[0].ifs[0]))]
             for k, v in filt.items()}
+    if bool(cand.get(ids)) != bool(cand.get(imgs)):
+        have = ids if cand.get(ids) else imgs
+        chk.ob(rule, fi, cand[have][0], 'ids and images are filtered by the same predicate', False,
+               'only %s is filtered by the already-processed set: the two lists go out of step and pages are processed with another page\'s image' % have,
+               construct='filter predicate')
+        return
     need(cand.get(ids) and cand.get(imgs), 'skip-processed filters of ids / images not found in main()')
     s_ids, s_img = cand[ids][0], cand[imgs][0]
 
